@@ -21,7 +21,38 @@ def setup(ctx):
     gen.PROV = 0.25  # a quarter of the generated operands come with a history of library operations (gen.provenance)
 
 
+def unbalanced_tt(rng):
+    """one mode with hundreds to thousands of points (a fine grid, a long time series) next to small ones: very tall / very wide
+    unfolded cores.  The big core is generic, rank-deficient (dependent slices) or graded (slices of very different scale)."""
+    d = int(rng.integers(2, 4))
+    rows = [int(rng.integers(2, 5)) for _ in range(d)]
+    j = int(rng.integers(0, d))
+    rows[j] = int(rng.integers(300, 3001))
+    while int(np.prod(rows)) > 100000:
+        rows[j] = max(rows[j] // 2, 150)
+    cplx = gen.rand_cplx(rng)
+    ranks = [1] + [int(rng.integers(2, 5)) for _ in range(d - 1)] + [1]
+    cores = gen.rand_cores(rng, rows, [1] * d, ranks, cplx)
+    u = int(rng.integers(0, 3))
+    if cores[j].dtype.kind in 'iu':  # (integer-typed cores: the scalings below need a floating type)
+        cores[j] = cores[j].astype(float)
+    c = cores[j]
+    if u == 1:  # dependent slices on the rank indices of the big core
+        if c.shape[0] > 1:
+            c[-1] = 0.5 * c[0]
+        if c.shape[3] > 1:
+            c[:, :, :, -1] = -2.0 * c[:, :, :, 0]
+    elif u == 2:  # graded: slices of very different scale
+        if c.shape[0] > 1:
+            c *= (10.0 ** (-2.0 * np.arange(c.shape[0])))[:, None, None, None]
+        if c.shape[3] > 1:
+            c *= (10.0 ** (-1.5 * np.arange(c.shape[3])))[None, None, None, :]
+    return tt.TT(cores), 'unbalanced_' + ['generic', 'rank_deficient', 'graded'][u]
+
+
 def vector_tt(rng):
+    if rng.random() < 0.06:
+        return unbalanced_tt(rng)
     d = int(rng.integers(2, 6))
     rows = gen.rand_dims(rng, d, 4, p_one=0.2)
     while np.prod(rows) > 4000:
